@@ -2,7 +2,7 @@
 //! profile, run the case, evaluate all trace oracles.
 
 use crate::driver::{hash_of, Engine, Eval};
-use crate::exec::run_case;
+use crate::exec::{run_case, run_case_storm};
 use crate::gen::{gen_case, Profile};
 use crate::oracle;
 use crate::props::{labels, CombProp, Tier};
@@ -31,7 +31,7 @@ impl Engine for CombEngine {
 
 impl CombEngine {
     pub fn eval_case(&self, case: &crate::spec::Case, trace: bool) -> Eval {
-        let mut out = run_case(case, cfg!(feature = "cfg-std"), trace);
+        let mut out = if case.storm { run_case_storm(case, cfg!(feature = "cfg-std"), trace) } else { run_case(case, cfg!(feature = "cfg-std"), trace) };
         if case.fair_polls > 5_000 || case.root.children.len() > 5_000 {
             // the functional oracles are quadratic in the length of a run
             oracle::check_trace_fairness_only(&mut out.world);
@@ -41,6 +41,11 @@ impl CombEngine {
         let nontrivial = out.inconclusive.is_none() && (self.prop.nontrivial)(case, &out);
         let labels = labels(case, &out);
         let mut violations = if out.inconclusive.is_some() { Vec::new() } else { std::mem::take(&mut out.world.viol) };
+        if case.storm {
+            // the helper threads invoke wakers at moments the harness cannot
+            // order against child polls, so selectivity is not judged here
+            violations.retain(|v| v.oracle != Oracle::S);
+        }
         // Shared-oracle violations that belong to a family's own statement, when
         // that family is the culprit (see DESIGN.md section 4, Attribution):
         // * ownership clauses: C05 "values already produced by other children
